@@ -118,8 +118,8 @@ class XmlEventHandler(XmlHandler):
 def iterdecode(context: Iterable[tuple[str, Any]]) -> Iterator[tuple[str, Any]]:
     """Iterate the parser events and report decoding errors as parsing errors.
 
-    The expat parser raises lookup and unicode errors for documents with
-    an unknown or mismatched encoding declaration.
+    The expat parser raises lookup, unicode and plain value errors for
+    documents with an unknown, mismatched or unsupported encoding declaration.
 
     Args:
         context: The iterable xml context
@@ -129,7 +129,7 @@ def iterdecode(context: Iterable[tuple[str, Any]]) -> Iterator[tuple[str, Any]]:
     """
     try:
         yield from context
-    except (LookupError, UnicodeError) as e:
+    except (LookupError, ValueError) as e:
         raise ParserError(e)
 
 
